@@ -7,6 +7,11 @@ the outcome class and ALL raw tables (read through an independent connection) ar
 Failing-input search (independent of the model): dictionary rules for acceptance/refusal computed from the raw
 tables before the call, "refused => tables unchanged", "uploaded => retrievable with equal content", "deleted =>
 exactly that item gone", and outcome independence from other files / earlier uploads (replay on a fresh process state).
+"Equal content" is judged on the NUMBERS, not only on the identifier (which is computed from rounded data): half of the point
+isotherms carry full-precision doubles (`precise_value`: 15-17 digits, tiny and large magnitudes, values next to a rounding boundary
+of the 6th..12th decimal), and every data column / the model dictionary / float metadata / the temperature of the retrieved isotherm
+is compared exactly with the stored one (`_content_diff`), in the histories and in a dedicated round trip (`_roundtrip`: upload,
+retrieve, compare, `retrieved == stored`, delete through the retrieved object, store empty).
 """
 import copy
 import sqlite3
@@ -18,11 +23,34 @@ from pgv.models import make, sample_params
 WORDS = ["alpha", "beta", "zeolite", "carbon", "MOF-5", "batchA", "x.y", "note_1"]
 
 
+HASH_DECIMALS = [8, 8, 8, 8, 6, 7, 9, 10, 11, 12]
+
+
+def precise_value(rng, lo, hi, tiny=True):
+    """A finite double of the kind measured / computed data consist of, drawn from the regions where a lossy storage format shows:
+    all 15-17 significant digits; tiny magnitudes (absolute pressures in bar at high vacuum); a value next to a rounding boundary of
+    the k-th decimal (k = 6..12: on either side, 10^-0.5 .. 10^-4.5 units of that decimal away - the identifier of an isotherm is
+    computed from rounded data, so a store that cuts digits moves such a value across the boundary and the retrieved isotherm is
+    no longer the key of what was stored); large magnitudes with all digits."""
+    r = rng.random()
+    if r < 0.35:
+        return rng.uniform(lo, hi)
+    if r < 0.5 and tiny:
+        return 10 ** rng.uniform(-13, -5)
+    if r < 0.85:
+        k = rng.choice(HASH_DECIMALS)
+        base = rng.randint(int(lo * 10 ** k) + 1, max(int(lo * 10 ** k) + 2, int(hi * 10 ** k) - 1))
+        return (base + 0.5 + rng.choice([-1, 1]) * 10 ** -rng.uniform(0.5, 4.5)) / 10 ** k
+    return rng.uniform(lo, hi) * 10 ** rng.randint(2, 7)
+
+
 def rand_props(rng, keys, allow_none=False):
     props = {}
     for k in rng.sample(keys, rng.randint(0, min(4, len(keys)))):
         r = rng.random()
-        if r < 0.35:
+        if r < 0.1:
+            props[k] = precise_value(rng, 0.1, 500)     # a number with all its digits (the store must hand it back as it was)
+        elif r < 0.35:
             props[k] = round(rng.uniform(0.1, 500), 3)
         elif r < 0.5:
             props[k] = rng.randint(1, 50)
@@ -44,25 +72,36 @@ def make_isotherm(pg, rng, mat, ads, kind):
         meta["weird"] = {"a": 1}
     if rng.random() < 0.06:
         meta["nothing"] = None
-    common = dict(material=mat, adsorbate=ads, temperature=round(rng.uniform(70, 400), 2), **meta)
+    if "t_act" in meta and rng.random() < 0.3:
+        meta["t_act"] = precise_value(rng, 300, 500)
+    common = dict(material=mat, adsorbate=ads, temperature=round(rng.uniform(70, 400), 2) if rng.random() < 0.7 else precise_value(rng, 70, 400, tiny=False), **meta)
     if kind == "base":
         from pygaps.core.baseisotherm import BaseIsotherm
         return BaseIsotherm(**common)
     if kind == "point":
         import pandas as pd
         n = rng.randint(2, 7)
-        ps = sorted(round(rng.uniform(0.01, 1), 4) for _ in range(n))
-        ls = [round(rng.uniform(0, 5), 4) for _ in range(n)]
+        # half of the point isotherms carry data as instruments / computations give them (every digit of the double, tiny and
+        # large magnitudes, values next to a rounding boundary), the other half short decimals
+        precise = rng.random() < 0.5
+        val = (lambda lo, hi: precise_value(rng, lo, hi)) if precise else (lambda lo, hi: round(rng.uniform(lo, hi), 4))
+        rnd = (lambda x: x) if precise else (lambda x: round(x, 4))
+        ps = sorted(set(val(0.01, 1) for _ in range(n)))
+        while len(ps) < 2:
+            ps = sorted(set(ps + [val(0.01, 1)]))
+        ls = [val(0, 5) for _ in ps]
         r = rng.random()
         branch = "guess"
         if r < 0.3:                      # adsorption + desorption, natural order
-            ps = ps + [round(p * 0.9, 4) for p in reversed(ps[:-1])]
-            ls = ls + [round(l * 1.1, 4) for l in reversed(ls[:-1])]
+            ps = ps + [rnd(p * 0.9) for p in reversed(ps[:-1])]
+            ls = ls + [rnd(l * 1.1) for l in reversed(ls[:-1])]
         elif r < 0.45:                   # user-assigned marks that differ from what guessing would give
-            ps = ps + [round(ps[-1] * 0.5, 4)]
-            ls = ls + [round(ls[-1] * 1.05, 4)]
+            ps = ps + [rnd(ps[-1] * 0.5)]
+            ls = ls + [rnd(ls[-1] * 1.05)]
             branch = [0] * len(ps)
-        df = pd.DataFrame({"pressure": ps, "loading": ls, "enth": [round(rng.uniform(1, 9), 2) for _ in ps]})
+        cols = {"pressure": ps, "loading": ls, "enth": [val(1, 9) if precise else round(rng.uniform(1, 9), 2) for _ in ps]}
+        # (a whole-number supplementary column is outside the storable domain: find_SQL_python_type refuses numpy.int64 with a ParsingError)
+        df = pd.DataFrame(cols)
         return pg.PointIsotherm(isotherm_data=df, pressure_key="pressure", loading_key="loading", branch=branch, **common)
     name = rng.choice(["Henry", "Langmuir"])
     return pg.ModelIsotherm(model=make(pg, name, sample_params(name, rng)), **common)
@@ -200,6 +239,7 @@ def run(ck):
             pg.ADSORBATE_LIST[:], pg.MATERIAL_LIST[:] = saved
         _run(ck, pg, pgsql, BaseIsotherm, rng, thorough, files)
         _bulk(ck, pg, pgsql, rng, thorough, files)
+        _roundtrip(ck, pg, pgsql, rng, files)
     finally:
         files.close()
 
@@ -509,9 +549,18 @@ def _run(ck, pg, pgsql, BaseIsotherm, rng, thorough, files):
                         iid = target
                     elif how == "retrieved":
                         iid = rng.choice(stored[fi])[1]["id"]
-                        got = [i for i in rt.call("isotherms_from_db", path) if i.iso_id == iid]
+                        allgot = list(rt.call("isotherms_from_db", path))
+                        got = [i for i in allgot if i.iso_id == iid]
                         target = got[0] if got else iid
                         detail["via"] = "retrieved object" if got else "id (retrieved object has another id)"
+                        if not got:
+                            # no retrieved object carries the identifier: when the one standing for the stored isotherm has the same
+                            # metadata (kinds included) and branch marks, "can be deleted through it" is put to the test all the same
+                            so, sd = [s for s in stored[fi] if s[1]["id"] == iid][0]
+                            tw = _twin(pg, allgot, before, sd, so)
+                            if tw is not None and tw.to_dict() == so.to_dict() and not any(isinstance(v, int) and not isinstance(v, bool) for v in so.properties.values()) and (not isinstance(so, pg.PointIsotherm) or _same_branch(tw, so)):
+                                target = tw
+                                detail["via"] = "retrieved object (identifier differs from the stored one)"
                     else:
                         iid = rng.choice(stored[fi])[1]["id"]
                         target = iid if rng.random() < 0.5 else [s for s in stored[fi] if s[1]["id"] == iid][0][0]
@@ -546,7 +595,7 @@ def _run(ck, pg, pgsql, BaseIsotherm, rng, thorough, files):
             if why is not None and out == "ok":
                 ck.fail_case({**sig, "clause": "must be refused: " + why}, {"line": line})
             if why is None and out != "ok":
-                ck.fail_case({**sig, "clause": "valid operation refused"}, {"line": line, "error": repr(exc)[:300]})
+                ck.fail_case({**sig, "clause": "valid operation refused"}, {"line": line, "error": repr(exc)[:300], **({"via": detail["via"]} if "via" in detail else {})})
             if out != "ok" and changed:
                 ck.fail_case({**sig, "clause": "refused operation changed the database"}, {"line": line})
             if out == "other":
@@ -594,8 +643,100 @@ def _run(ck, pg, pgsql, BaseIsotherm, rng, thorough, files):
                         "options at their documented default are left out at random")
     ck.cov["rule"] = ("seeded histories (quick 25 x <= 25 ops, thorough 120 x <= 60) over 1-3 freshly created database files: adsorbate/material/isotherm/property-type uploads "
                       "(overwrite, auto-insert flags, None / list / unsupported values, duplicates), deletions (by name, by object, by retrieved object, absent, still referenced), "
-                      "three isotherm classes; non-trivial = accepted call that changed a table; distinct = distinct (operation, outcome, arguments)")
+                      "three isotherm classes, half of the point isotherms with full-precision data (all digits, tiny / large magnitudes, values next to a rounding boundary); "
+                      "retrieved content compared number by number; round trips upload / retrieve / == / delete-through-retrieved on 8 (thorough 30) stores; non-trivial = accepted call that changed a table; distinct = distinct (operation, outcome, arguments)")
     ck.assumptions += ["SQLite's own constraint enforcement and REAL/TEXT affinity (values compared after the same canonicalisation)"]
+
+
+def _roundtrip(ck, pg, pgsql, rng, files):
+    """The clause "an uploaded item comes back with equal content (a retrieved isotherm equals the stored one and can be deleted
+    through it)" on its own, for isotherms whose numbers use the whole double (see `precise_value`): a store with a few such
+    isotherms; after every upload everything stored so far is retrieved and compared number by number and by identifier; in the end
+    every isotherm is deleted through the RETRIEVED object standing for it (by identifier; by position of its row when no retrieved
+    object carries the identifier) and the store must be empty.  Every call is valid on a fresh store: one that raises is a failing
+    input.  Integer metadata and user-assigned branch marks (recorded findings S11c / S11b) are left out here."""
+    rt = Routes(ck, pg, pgsql)
+    n_stores = ck.n(8, 30)
+    for si in range(n_stores):
+        path = files.new()
+        del pg.ADSORBATE_LIST[:]
+        del pg.MATERIAL_LIST[:]
+        step = "set-up"
+        sig0 = {"op": "isoToDb", "roundtrip": True}
+        try:
+            for t in ("isotherm", "pointisotherm", "modelisotherm"):
+                pgsql.isotherm_type_to_db({"type": t}, db_path=path, verbose=False)
+            kept = []
+            for k in range(rng.randint(1, 4)):
+                kind = rng.choice(["point", "point", "point", "model"])
+                iso = None
+                while iso is None or any(isinstance(v, int) and not isinstance(v, bool) for v in iso.properties.values()) or iso.properties.get("weird") \
+                        or "nothing" in iso.properties or (kind == "point" and list(iso.data_raw["branch"]) != list(_reguessed(pg, iso))):
+                    iso = make_isotherm(pg, rng, f"rt{si}_m{rng.randint(0, 1)}", f"rt{si}_g{rng.randint(0, 1)}", kind)
+                if any(o.iso_id == iso.iso_id for o in kept):
+                    continue
+                step = "isoToDb"
+                rt.call("isotherm_to_db", path, iso)
+                sig = {**sig0, "class": type(iso).__name__.lower(), "route": rt.last}
+                kept.append(iso)
+                step = "isotherms_from_db"
+                got = list(rt.call("isotherms_from_db", path))
+                T, _, _ = sl.read_tables(path)
+                ck.count(("roundtrip", si, k), bucket="roundtrip: stored isotherms retrieved and compared number by number")
+                if len(got) != len(kept):
+                    ck.fail_case({**sig, "clause": "what can be retrieved equals what was stored"}, {"stored": len(kept), "retrieved": len(got)})
+                for o in kept:
+                    desc = {"id": o.iso_id, "material": str(o.material), "adsorbate": str(o.adsorbate)}
+                    tw = _twin(pg, got, T, desc, o)
+                    if tw is None:
+                        ck.fail_case({**sig, "clause": "retrieved isotherm equals the stored one"}, {"stored_id": o.iso_id, "retrieved_ids": [g.iso_id for g in got][:5], "data": _data_of(pg, o)})
+                        continue
+                    for where, x, y in _content_diff(pg, o, tw):
+                        ck.fail_case({**sig, "clause": "retrieved data equal the stored data number for number", "where": where.split(":")[0]},
+                                     {"where": where, "stored": repr(x)[:300], "retrieved": repr(y)[:300], "data": _data_of(pg, o)})
+                    if not (tw == o) or tw.iso_id != o.iso_id:
+                        ck.fail_case({**sig, "clause": "retrieved isotherm equals the stored one"}, {"stored_id": o.iso_id, "retrieved_id": tw.iso_id, "data": _data_of(pg, o)})
+            # deletion through the retrieved objects
+            while kept:
+                o = kept.pop(rng.randrange(len(kept)))
+                step = "isotherms_from_db"
+                got = list(rt.call("isotherms_from_db", path))
+                T, _, _ = sl.read_tables(path)
+                tw = _twin(pg, got, T, {"id": o.iso_id, "material": str(o.material), "adsorbate": str(o.adsorbate)}, o)
+                if tw is None:
+                    continue                                     # reported above
+                step = "isoDelete"
+                sig = {"op": "isoDelete", "roundtrip": True, "class": type(o).__name__.lower()}
+                try:
+                    rt.call("isotherm_delete_db", path, tw)
+                except Exception as e:  # noqa
+                    ck.fail_case({**sig, "route": rt.last, "outcome": sl.outcome_of(e) if sl.outcome_of(e) == "parsing" else err_class(e),
+                                  "clause": "stored isotherm cannot be deleted through the retrieved object"},
+                                 {"error": repr(e)[:300], "stored_id": o.iso_id, "retrieved_id": tw.iso_id, "data": _data_of(pg, o)})
+                    continue
+                A, _, _ = sl.read_tables(path)
+                ck.count(("roundtrip-delete", si, o.iso_id), bucket="roundtrip: deletion through the retrieved object")
+                if any(r[0] == o.iso_id for r in A["isos"] + A["isoProps"] + A["isoData"]) or [r for r in T["isos"] if r[0] != o.iso_id] != A["isos"]:
+                    ck.fail_case({**sig, "route": rt.last, "clause": "deletion removes exactly that item"}, {"stored_id": o.iso_id, "left": len(A["isos"])})
+        except Exception as e:  # noqa
+            ck.fail_case({"op": step, "roundtrip": True, "outcome": sl.outcome_of(e) if sl.outcome_of(e) == "parsing" else err_class(e), "clause": "valid operation refused", "route": rt.last},
+                         {"call": step, "error": repr(e)[:400]})
+
+
+def _reguessed(pg, iso):
+    """Branch marks a retrieval will give the points (the marks are not stored, finding S11b: they are guessed again from the pressures)."""
+    twin = pg.PointIsotherm(pressure=list(iso.pressure()), loading=list(iso.loading()), material="x", adsorbate="N2", temperature=300.0,
+                            pressure_mode="absolute", pressure_unit="bar", loading_basis="molar", loading_unit="mmol", material_basis="mass", material_unit="g", temperature_unit="K")
+    return twin.data_raw["branch"]
+
+
+def _data_of(pg, iso):
+    if isinstance(iso, pg.PointIsotherm):
+        return {"pressure": [repr(x) for x in iso.pressure().tolist()], "loading": [repr(x) for x in iso.loading().tolist()],
+                **{k: [repr(x) for x in iso.other_data(k).tolist()] for k in iso.other_keys}}
+    if isinstance(iso, pg.ModelIsotherm):
+        return {"model": repr(iso.model.to_dict())[:300]}
+    return {}
 
 
 def _retrieve(ck, rt, fname, path, sig, line):
@@ -664,6 +805,14 @@ def _check_effect(ck, pg, rt, kind, a, obj, path, before, after, sig, line, stor
         if got is None:
             return
         mine = [g for g in got if g.iso_id == desc["id"]]
+        twin = _twin(pg, got, after, desc, obj)
+        if twin is not None:
+            # "an uploaded item comes back with equal content": the numbers themselves, not only the identifier (which is computed
+            # from rounded data) - every data column / the model parameters / the numeric metadata, bit for bit
+            ck.count(("iso-content", desc["id"]), bucket="isoToDb:retrieved content compared number by number")
+            for where, x, y in _content_diff(pg, obj, twin):
+                ck.fail_case({**sig, "clause": "retrieved data equal the stored data number for number", "class": desc["cls"], "where": where.split(":")[0]},
+                             {"line": line[:300], "where": where, "stored": repr(x)[:300], "retrieved": repr(y)[:300]})
         ints = any(isinstance(v, int) and not isinstance(v, bool) for v in obj.properties.values())
         if not mine:
             # content comparison modulo the documented format domain: numbers are REAL (ints come back as floats)
@@ -679,6 +828,63 @@ def _check_effect(ck, pg, rt, kind, a, obj, path, before, after, sig, line, stor
                 [r for r in before["isos"] if r[0] != iid] != after["isos"] or [r for r in before["isoProps"] if r[0] != iid] != after["isoProps"] \
                 or [r for r in before["isoData"] if r[0] != iid] != after["isoData"]:
             ck.fail_case({**sig, "clause": "deletion removes exactly that item"}, {"line": line})
+
+
+def _twin(pg, got, after, desc, obj):
+    """The retrieved object that stands for the isotherm just stored: the one with its identifier; when no retrieved object has it
+    (the case the clause 'retrieved isotherm equals the stored one' reports), the one at the position of its row in the table."""
+    mine = [g for g in got if g.iso_id == desc["id"]]
+    if mine:
+        return mine[0]
+    idx = [i for i, r in enumerate(after["isos"]) if r[0] == desc["id"]]
+    if len(idx) == 1 and len(got) == len(after["isos"]):
+        g = got[idx[0]]
+        if type(g) is type(obj) and str(g.material) == desc["material"] and str(g.adsorbate) == desc["adsorbate"]:
+            return g
+    return None
+
+
+def _eq_exact(x, y):
+    """Equality of nested plain values with floats compared exactly (two NaNs are equal: 'not set' comes back as 'not set')."""
+    if isinstance(x, dict) and isinstance(y, dict):
+        return set(x) == set(y) and all(_eq_exact(x[k], y[k]) for k in x)
+    if isinstance(x, (list, tuple)) and isinstance(y, (list, tuple)):
+        return len(x) == len(y) and all(_eq_exact(p, q) for p, q in zip(x, y))
+    if isinstance(x, float) and isinstance(y, float) and x != x and y != y:
+        return True
+    return x == y
+
+
+def _content_diff(pg, a, b):
+    """[(where, stored, retrieved)]: numbers of the stored isotherm `a` that the retrieved one `b` does not hand back exactly."""
+    import numpy as np
+    out = []
+    if isinstance(a, pg.PointIsotherm):
+        cols = [("pressure", lambda i: i.pressure()), ("loading", lambda i: i.loading())] + [(k, (lambda i, k=k: i.other_data(k))) for k in a.other_keys]
+        if sorted(a.other_keys) != sorted(b.other_keys):
+            out.append(("supplementary columns", sorted(a.other_keys), sorted(b.other_keys)))
+        for name, get in cols:
+            try:
+                x, y = np.asarray(get(a)).tolist(), np.asarray(get(b)).tolist()
+            except Exception as e:  # noqa
+                out.append((f"{name}: not readable from the retrieved isotherm", None, repr(e)[:200]))
+                continue
+            if len(x) != len(y):
+                out.append((f"{name}: number of points", len(x), len(y)))
+                continue
+            bad = [i for i in range(len(x)) if not _eq_exact(x[i], y[i])]
+            if bad:
+                out.append((f"{name}: point {bad[0]} ({len(bad)} of {len(x)} differ)", x[bad[0]], y[bad[0]]))
+    elif isinstance(a, pg.ModelIsotherm):
+        da, db = a.model.to_dict(), b.model.to_dict()
+        if not _eq_exact(da, db):
+            out.append(("model: name, parameters, ranges, rmse", da, db))
+    for k, v in a.properties.items():
+        if isinstance(v, float) and not (b.properties.get(k) == v):
+            out.append((f"metadata: {k}", v, b.properties.get(k)))
+    if not (float(a.temperature) == float(b.temperature)):
+        out.append(("temperature", a.temperature, b.temperature))
+    return out
 
 
 def _same_value(a, b):
